@@ -656,21 +656,28 @@ def _dispatch_log_or_error(
             wire_batch_logger.debug("Classify batch: zero-row, no log keys -> data")
         return False
 
-    level_str = level_bytes.decode()
-    message_str = message_bytes.decode()
+    # The peer (not necessarily this library) chose these bytes.  Whatever
+    # cannot be understood as part of a log message is dropped or replaced;
+    # it must never turn a successful call into a failed one.
+    level_str = level_bytes.decode(errors="replace")
+    message_str = message_bytes.decode(errors="replace")
 
-    # Extract extra info (traceback, exception_type, etc.)
+    # Extract extra info (traceback, exception_type, etc.).  ``log_extra`` is
+    # free-form: only a JSON object contributes fields.  Invalid JSON and
+    # non-UTF-8 bytes raise ValueError subclasses, absurd nesting RecursionError.
     raw_extra_data: dict[str, object] = {}
     raw_extra = custom_metadata.get(LOG_EXTRA_KEY)
     if raw_extra is not None:
-        with contextlib.suppress(json.JSONDecodeError):
-            raw_extra_data = json.loads(raw_extra.decode())
+        with contextlib.suppress(ValueError, RecursionError):
+            parsed_extra = json.loads(raw_extra.decode())
+            if isinstance(parsed_extra, dict):
+                raw_extra_data = parsed_extra
 
     # Extract request_id from batch metadata
     request_id_bytes = custom_metadata.get(REQUEST_ID_KEY)
     request_id = ""
     if request_id_bytes is not None:
-        request_id = request_id_bytes.decode()
+        request_id = request_id_bytes.decode(errors="replace")
 
     if wire_batch_logger.isEnabledFor(logging.DEBUG):
         wire_batch_logger.debug(
@@ -687,7 +694,7 @@ def _dispatch_log_or_error(
         error_kind: str | None = None
         kind_bytes = custom_metadata.get(ERROR_KIND_KEY)
         if kind_bytes is not None:
-            error_kind = kind_bytes.decode()
+            error_kind = kind_bytes.decode(errors="replace")
         else:
             extra_kind = raw_extra_data.get("error_kind")
             if isinstance(extra_kind, str):
@@ -695,15 +702,28 @@ def _dispatch_log_or_error(
         raise RpcError(error_type, message_str, traceback_str, request_id=request_id, error_kind=error_kind)
 
     # Non-exception log message → invoke callback
-    # Coerce all extra values to str for Message(**extra)
-    extra: dict[str, str] = {k: str(v) for k, v in raw_extra_data.items()}
+    try:
+        level = Level(level_str)
+    except ValueError:
+        # A level this client does not know (newer or foreign peer): there is
+        # no Message to build, so the batch is consumed and ignored.
+        return True
+    # Coerce all extra values to str
+    extra: dict[str, object] = {}
+    try:
+        extra = {k: str(v) for k, v in raw_extra_data.items()}
+    except RecursionError:
+        extra = {}
     # Extract server_id from top-level metadata into extra
     server_id_bytes = custom_metadata.get(SERVER_ID_KEY)
     if server_id_bytes is not None:
-        extra["server_id"] = server_id_bytes.decode()
+        extra["server_id"] = server_id_bytes.decode(errors="replace")
     if request_id:
         extra["request_id"] = request_id
-    msg = Message(Level(level_str), message_str, **extra)
+    # Extras are free-form: a key may be called "level", "message" or "self",
+    # so they cannot travel as keyword arguments of Message().
+    msg = Message(level, message_str)
+    msg.extra = extra or None
     if on_log is not None:
         on_log(msg)
     return True
